@@ -547,7 +547,40 @@ def gen_ledger_cases(rng, n):
         yield Case("Simulator._update_agents_for_execution", sim._update_agents_for_execution, [sim, logs])
 
 
-GENS = {"order": gen_order_cases, "event": gen_event_cases, "market": gen_market_cases, "ledger": gen_ledger_cases,
+def gen_session_cases(rng, n):
+    """Session.setup on configured / deprecated / missing / ill-typed keys; values include 0, 0.0 and False"""
+    for _ in range(n):
+        sim = Simulator(prng=random.Random(rng.randint(0, 10 ** 6)))
+        ses = Session(session_id=0, prng=random.Random(0), session_start_time=0, simulator=sim, name="s")
+        st = {"sessionName": "s", "iterationSteps": rng.choice([0, 1, 5, 100]), "withOrderPlacement": rng.random() < 0.5,
+              "withOrderExecution": rng.random() < 0.5, "withPrint": rng.random() < 0.5}
+        if rng.random() < 0.6:
+            st["maxNormalOrders"] = rng.choice([0, 1, 3, 10])
+        r = rng.random()
+        if r < 0.4:
+            st["maxHighFrequencyOrders"] = rng.choice([0, 1, 5])
+        elif r < 0.6:
+            st["maxHifreqOrders"] = rng.choice([0, 1, 5])
+        elif r < 0.7:
+            st["maxHighFrequencyOrders"], st["maxHifreqOrders"] = 1, 2
+        r = rng.random()
+        if r < 0.4:
+            st["highFrequencySubmitRate"] = rng.choice([0.0, 1.0, 0.25, 0.5])
+        elif r < 0.6:
+            st["hifreqSubmitRate"] = rng.choice([0.0, 1.0, 0.25])
+        elif r < 0.7:
+            st["highFrequencySubmitRate"], st["hifreqSubmitRate"] = 0.5, 0.25
+        r = rng.random()
+        if r < 0.08:
+            st.pop(rng.choice(["iterationSteps", "withOrderPlacement", "withOrderExecution", "withPrint"]))
+        elif r < 0.14:
+            st["iterationSteps"] = 2.5
+        elif r < 0.2:
+            st[rng.choice(["withOrderPlacement", "withOrderExecution", "withPrint"])] = 1
+        yield Case("Session.setup", ses.setup, [ses, st])
+
+
+GENS = {"session": gen_session_cases, "order": gen_order_cases, "event": gen_event_cases, "market": gen_market_cases, "ledger": gen_ledger_cases,
         "marketop": gen_marketop_cases}
 
 
